@@ -119,7 +119,42 @@ func buildWorker(v variant) (string, error) {
 
 // ------------------------------------------------------------------- run
 
+type raceReport struct {
+	sig  string
+	text string
+}
+
+// parseRaces extracts the race detector's report blocks from a worker log, with a
+// signature made of the outermost library frames of the two conflicting accesses.
+func parseRaces(log string) []raceReport {
+	var out []raceReport
+	for _, blk := range strings.Split(log, "==================") {
+		if !strings.Contains(blk, "WARNING: DATA RACE") {
+			continue
+		}
+		var sig []string
+		lines := strings.Split(blk, "\n")
+		for i, l := range lines {
+			t := strings.TrimSpace(l)
+			if strings.HasPrefix(t, "Write at") || strings.HasPrefix(t, "Read at") || strings.HasPrefix(t, "Previous write at") || strings.HasPrefix(t, "Previous read at") {
+				// the first frame below names the accessing function
+				if i+1 < len(lines) {
+					f := strings.TrimSpace(lines[i+1])
+					if j := strings.IndexByte(f, '('); j > 0 {
+						f = f[:j]
+					}
+					sig = append(sig, f)
+				}
+			}
+		}
+		sort.Strings(sig)
+		out = append(out, raceReport{sig: strings.Join(sig, " <-> "), text: strings.TrimSpace(blk)})
+	}
+	return out
+}
+
 type shardResult struct {
+	races   []raceReport
 	sum     *hx.Summary
 	hashes  []uint64
 	crashed bool
@@ -176,7 +211,13 @@ func runShards(prop string, tier string, seed int64, v variant, bin string, nsha
 						r.timeout = true
 					}
 				}
-			} else if b, e := os.ReadFile(base + ".hashes"); e == nil {
+			}
+			if v.Race {
+				if b, e := os.ReadFile(logf); e == nil {
+					r.races = parseRaces(string(b))
+				}
+			}
+			if b, e := os.ReadFile(base + ".hashes"); e == nil && r.sum != nil {
 				r.hashes = make([]uint64, len(b)/8)
 				for j := range r.hashes {
 					r.hashes[j] = binary.LittleEndian.Uint64(b[8*j:])
@@ -267,6 +308,24 @@ func runCheck(prop string, cfg *propCfg, tier string, seed int64) int {
 	m := hx.Summary{Prop: prop, Tier: tier, Seed: seed, Classes: map[string]int64{}, Counters: map[string]int64{}, KnownHits: map[string]int64{}, KnownSample: map[string]string{}}
 	var hashes []uint64
 	var viol []hx.Violation
+	raceSeen := map[string]int{}
+	nraces := 0
+	for _, r := range all {
+		for _, rr := range r.races {
+			nraces++
+			raceSeen[rr.sig]++
+			if raceSeen[rr.sig] == 1 {
+				viol = append(viol, hx.Violation{Prop: prop, Idx: int64(len(raceSeen)), Kind: "data-race", Detail: "race detector report (" + rr.sig + "): " + trunc(rr.text, 2500)})
+				m.NViol++
+			}
+		}
+	}
+	for _, v := range variants {
+		if v.Race {
+			m.Counters["race_detector_report_blocks"] = int64(nraces)
+			m.Counters["race_detector_distinct_signatures"] = int64(len(raceSeen))
+		}
+	}
 	for _, r := range all {
 		if r.sum == nil {
 			what := fmt.Sprintf("variant %s: child died; last case: %q; log tail: %s", r.variant, r.last, tail(r.log, 1500))
